@@ -30,9 +30,20 @@ def workdir(name):
     return d
 
 
-def run_tlc(module, cfg_text, wd, workers=16, extra_modules=(), env=None, simulate=None,
-            depth=None, dump=None, coverage=False, timeout=900, seed=None, deadlock=False,
-            javaopts=None, gen_files=None, heap="4g"):
+def run_tlc(*args, **kw):
+    """run_tlc_once; a run that ends in an exception of the JVM / of TLC itself (out of memory on a loaded machine, ...) is repeated once:
+    TLC is deterministic here, so a genuine error of a specification or of a trace simply shows up again."""
+    r = run_tlc_once(*args, **kw)
+    if r.error and r.error != "timeout" and re.search(r"unexpected exception|OutOfMemory|insufficient memory|Cannot allocate memory|StackOverflow", r.out or ""):
+        import time
+        time.sleep(15)
+        r = run_tlc_once(*args, **kw)
+    return r
+
+
+def run_tlc_once(module, cfg_text, wd, workers=16, extra_modules=(), env=None, simulate=None,
+                 depth=None, dump=None, coverage=False, timeout=900, seed=None, deadlock=False,
+                 javaopts=None, gen_files=None, heap="4g"):
     """Run TLC on specs/<module>.tla with the given cfg text inside work dir wd.
     The spec files are copied (all of specs/*.tla) so generated modules can sit beside them."""
     os.makedirs(wd, exist_ok=True)
